@@ -129,6 +129,7 @@ type treeTarget struct {
 	raws         map[string]*treechangeproto.RawTreeChangeWithId
 	pendingHU    [][]byte // honest head updates of the peer not yet delivered to the victim
 	n            int
+	crafted      []string // ids of hostile changes built so far
 }
 
 func (w *world) treeTarget() *treeTarget {
@@ -244,7 +245,9 @@ func (t *treeTarget) serve(req syncdeps.Request) {
 
 func (t *treeTarget) anyId(label string) string {
 	s := t.w.s
-	switch s.Weighted(label+"-kind", []int{8, 1, 1}) {
+	switch s.Weighted(label+"-kind", []int{8, 1, 1, 3 * minInt(len(t.crafted), 1)}) {
+	case 3: // a hostile change made earlier (possibly part of the same batch, possibly never attached)
+		return t.crafted[len(t.crafted)-1-s.Choose(label+"-crafted", minInt(len(t.crafted), 4))]
 	case 1:
 		id, _ := cidutil.NewCidFromBytes([]byte(fmt.Sprintf("no-such-change-%d", s.Choose("n", 50))))
 		return id
@@ -333,6 +336,7 @@ func (w *world) stepTree() {
 	t := w.treeTarget()
 	s := w.s
 	if s.Flip("tree-honest-progress", 0.3) {
+		// (under the hang watch: a lock left behind by an earlier hostile delivery shows here)
 		t.advance()
 		if s.Flip("deliver-honest-now", 0.5) {
 			t.deliverHonest()
@@ -348,9 +352,52 @@ func (w *world) stepTree() {
 		from := len(t.known) - 1 - s.Choose("recent", minInt(len(t.known), 6))
 		orig := t.raws[t.known[from]]
 		ch, what := t.hostileChange(orig)
+		if what != "honest" {
+			t.crafted = append(t.crafted, ch.Id)
+		}
 		batch = append(batch, ch)
 		whats = append(whats, what)
 		size += len(ch.RawChange) + len(ch.Id)
+	}
+	// a chain inside one batch: the first change cannot be attached (its parent never arrives), a later one
+	// leans on it as parent and / or as snapshot base
+	if s.Flip("dangling-chain", 0.15) {
+		mk := func(from *treechangeproto.RawTreeChangeWithId, edit func(tc *treechangeproto.TreeChange)) *treechangeproto.RawTreeChangeWithId {
+			raw := &treechangeproto.RawTreeChange{}
+			must(raw.UnmarshalVT(from.RawChange))
+			tc := &treechangeproto.TreeChange{}
+			must(tc.UnmarshalVT(raw.Payload))
+			edit(tc)
+			b, err := tc.MarshalVT()
+			must(err)
+			return t.sign(b, t.w.owner)
+		}
+		honest := t.raws[t.known[len(t.known)-1]]
+		if honest.Id != t.root.Id {
+			ghost, _ := cidutil.NewCidFromBytes([]byte(fmt.Sprintf("never-delivered-%d", s.Choose("ghost", 50))))
+			first := mk(honest, func(tc *treechangeproto.TreeChange) {
+				tc.TreeHeadIds = []string{ghost}
+				tc.IsSnapshot = s.Flip("first-is-snapshot", 0.6)
+			})
+			kind := s.Choose("lean", 3)
+			second := mk(honest, func(tc *treechangeproto.TreeChange) {
+				if kind != 1 {
+					tc.SnapshotBaseId = first.Id
+				}
+				if kind != 0 {
+					tc.TreeHeadIds = []string{first.Id}
+				} else {
+					tc.TreeHeadIds = []string{t.known[s.Choose("attached-parent", len(t.known))]}
+				}
+			})
+			batch = []*treechangeproto.RawTreeChangeWithId{first, second}
+			if s.Flip("chain-reversed", 0.3) {
+				batch = []*treechangeproto.RawTreeChangeWithId{second, first}
+			}
+			whats = []string{fmt.Sprintf("unattachable change (snapshot flag per seed) + a change leaning on it (kind %d)", kind)}
+			size = len(first.RawChange) + len(second.RawChange)
+			t.crafted = append(t.crafted, first.Id, second.Id)
+		}
 	}
 	what := fmt.Sprint(whats)
 	ctx := peer.CtxWithPeerId(ctxb, "peer")
